@@ -32,3 +32,13 @@ claim("C10",
       "Arithmetic truth of totals on real files is not decided.",
       "Trusts the T-meta table (spec/t_meta.json, written from the format documentation), the constant folding of offsets in the "
       "abstract evaluator, and C14 for the absence of races on the handler-updated counters.")
+
+claim("C05",
+      "abstract path evaluation of merger_iter_seek (accept sets of the two comparison sites vs. the full re-seek / per-head forward actions) + constructor argument-identity rules",
+      "Decides: the forward-seek shortcut is reachable only with sign(target,last returned key)=GT (so seek(K) after next()->K re-seeks every "
+      "source), a head is re-sought iff the target is beyond it, seek clears finished/pending first and returns success on every path, and "
+      "each merger lookup is built from the matching per-source lookup over all sources with its own key parameters, registering and "
+      "offering every non-NULL per-source iterator exactly once and freeing on an empty result. Equivalence with a single merged table over "
+      "all histories is not decided.",
+      "Trusts the T-cmp rows 13/14 (invariant read off merger_iter_next: after next returns K all heads are beyond K), loop bound 1 for the "
+      "per-source loops, and the access-path aliasing of the evaluator.")
